@@ -37,17 +37,18 @@ from ..tlc import expect_clean, run_tlc
 
 META = {
     "level": "model_checking",
-    "level_text": "TLC checks on every history of <= 4 (quick) / 5 (thorough) operations over 2 paths in "
-                  "one directory and over 2 directories with one member, two live objects of any of the "
-                  "nine file value classes, that after every write / append / copy / stage / unstage / "
-                  "Dir.copy_to / mkdir / rmdir through redun the object's recorded hash is the fresh hash, "
-                  "that is_valid is total and true exactly when recorded = fresh (always for immutable "
-                  "classes), that the ContentFile hash is a function of path and bytes only and the File "
-                  "hash of path, size and mtime, and that hashing a missing path is total -- strictly for "
-                  "the repaired model, and for the as-built model unless one of two named deviations "
-                  "fired.  Every behaviour of a small exhaustive tree, thousands of simulated ones and "
-                  "seeded random longer executions are run on the real classes and compared step by step "
-                  "with the model, in both directions.",
+    "level_text": "TLC checks on every history of <= 5 operations over 2 paths in one directory and over 2 "
+                  "directories with one member (thorough; quick: <= 3 operations over 2 directories x 2 "
+                  "members, <= 4 on directory objects), two live objects of any of the nine file value "
+                  "classes, that after every write / append / copy / stage / unstage / Dir.copy_to / mkdir / "
+                  "rmdir through redun the object's recorded hash is the fresh hash, that is_valid is total "
+                  "and true exactly when recorded = fresh (always for immutable classes), that the "
+                  "ContentFile hash is a function of path and bytes only and the File hash of path, size "
+                  "and mtime, and that hashing a missing path is total -- strictly for the repaired model, "
+                  "and for the as-built model unless one of two named deviations fired.  Every behaviour "
+                  "of small exhaustive trees, simulated longer ones and seeded random longer executions "
+                  "are run on the real classes and compared step by step with the model, in both "
+                  "directions.",
     "level_note": "Local file system only (S3 / fsspec back ends and ShardedS3Dataset are out of scope); "
                   "flat directories; four contents; mtimes set explicitly (sub-tick rewrites that keep "
                   "size and mtime are outside what a size+mtime hash can see and are modelled as such); "
@@ -70,13 +71,13 @@ STRICT = ["TypeOK", "FreshAfterOp", "ValidIff", "HashTotal"]
 UNLESS = ["TypeOK", "FreshAfterOpUnlessDev", "ValidIffUnlessDev", "HashTotalUnlessDev"]
 
 
-def model_check(ctx: Ctx) -> None:
+def model_check(ctx: Ctx) -> set:
     common = dict(classes=fv.ALL_CLS, max_objs=2, mtimes=[1, 2])
     if ctx.quick:
-        plan = [("as-built", U_FULL, [2, 3], 3), ("as-built", U_TWO_DIRS, [2], 4), ("repaired", U_FULL, [2], 3)]
+        plan = [("as-built", U_FULL, [2, 3], 3), ("repaired", U_ONE_DIR, [1, 2, 3], 3)]
     else:
         plan = [("as-built", U_ONE_DIR, [1, 2, 3], 5), ("as-built", U_TWO_DIRS, [2, 3], 5),
-                ("as-built", U_FULL, [2], 4), ("repaired", U_ONE_DIR, [1, 2, 3], 4),
+                ("as-built", U_FULL, [2, 3], 3), ("repaired", U_ONE_DIR, [1, 2, 3], 4),
                 ("repaired", U_TWO_DIRS, [2, 3], 4)]
     runs = []
     timing: list = []
@@ -85,10 +86,11 @@ def model_check(ctx: Ctx) -> None:
         ab = kind == "as-built"
         # as built: the invariants hold unless a named deviation fired; repaired: strictly
         cfg = fv.cfg_text("SpecOps", **u, **common, bytes_=bts, max_ops=depth, dev_cm=ab, dev_dc=ab,
-                          invariants=(UNLESS + ["Witness"]) if ab else STRICT + ["HashLaws"],
+                          invariants=(UNLESS + ["Witness"]) if ab else STRICT + ["HashLawsInit"],
                           properties=["ContentBytesOnly"])
         what = f"{kind} dirs={u['dirs']} names={u['names']} bytes={bts} ops<={depth}"
-        res = expect_clean(run_tlc("seq/FileValues.tla", cfg, ctx.scratch, workers=8, timeout=2400, heap="8g"),
+        res = expect_clean(run_tlc("seq/FileValues.tla", cfg, ctx.scratch, workers=ctx.pick(4, 12),
+                                   timeout=2400, heap=ctx.pick("3g", "8g")),
                            f"FileValues.tla {what}")
         ctx.add_tlc(res)
         if ab:
@@ -99,6 +101,10 @@ def model_check(ctx: Ctx) -> None:
         timing.append(round(res.wall_s, 1))
     ctx.note("model_runs", runs)
     ctx.note("model_run_seconds", timing)
+    return witnesses
+
+
+def judge_model_controls(ctx: Ctx, witnesses: set) -> None:
     # model-level controls: in the as-built model TLC reaches states in which the strict invariants
     # are false (printed by Witness), each through its named deviation; the Unless-invariants of the
     # same runs show that they fail through nothing else, the repaired runs that they hold strictly
@@ -136,7 +142,7 @@ def run(ctx: Ctx) -> None:
         _t[0] = ctx.elapsed()
 
     # ---- 1. model checking ------------------------------------------------------------------
-    model_check(ctx)
+    witnesses = model_check(ctx)
     mark("model_check")
 
     # ---- 2. which named deviations does this tree have? (witnesses run on the real code) ------
@@ -171,11 +177,22 @@ def run(ctx: Ctx) -> None:
     # ... and a deeper one over directory objects only (Dir.copy_to / StagingDir need four operations:
     # two objects, a member, the copy)
     dcls = ctx.pick(["Dir"], ["Dir", "ContentDir"])
-    gcfg = fv.cfg_text("GSpecOps", **U_TWO_DIRS, bytes_=[2], mtimes=[1], classes=dcls, max_objs=2,
-                       max_ops=4, **flags, invariants=["Emit"], view=False)
+    dkw = dict(**U_TWO_DIRS, bytes_=[2], mtimes=[1], classes=dcls, max_objs=2, max_ops=4)
+    gcfg = fv.cfg_text("GSpecOps", **dkw, **flags, invariants=["Emit"] + UNLESS + ["Witness"], view=False)
     g = run_tlc("seq/FileValues_Gen.tla", gcfg, ctx.scratch, workers=4, timeout=1500, heap="8g")
     ctx.require(g.ok, f"FileValues_Gen exhaustive (directories) failed: {g.error} {g.violated}")
     ctx.add_tlc(g)
+    # this run is also the depth-4 model check of the directory operations (as a tree); with the
+    # as-built flags it yields the FreshAfterOp witness, otherwise a small as-built run supplies it
+    if dev["dc"]:
+        witnesses |= set(g.recs("WITNESS"))
+    if "FreshAfterOp dir-copy-stale" not in witnesses:
+        c = expect_clean(run_tlc("seq/FileValues.tla",
+                                 fv.cfg_text("SpecOps", **dkw, dev_cm=True, dev_dc=True, invariants=UNLESS + ["Witness"]),
+                                 ctx.scratch, workers=2, timeout=900), "FileValues.tla as built, directories, 4 ops")
+        ctx.add_tlc(c)
+        witnesses |= set(c.recs("WITNESS"))
+    judge_model_controls(ctx, witnesses)
     dbehs = sorted(g.recs("BEH"), key=lambda b: fv.json.dumps(b, sort_keys=True))
     ctx.require(len(dbehs) > 300, f"too few directory behaviours from TLC: {len(dbehs)}")
     mark("tree4_tlc")
@@ -200,7 +217,7 @@ def run(ctx: Ctx) -> None:
     ctx.note("replay_stats", stats)
 
     # ---- 5. code -> spec: random executions validated by TLC -----------------------------------
-    ntr = ctx.pick(250, 1500)
+    ntr = ctx.pick(150, 1500)
     tu = dict(dirs=["d", "e", "g"], names=["a", "b"], bytes_=[1, 2, 3, 4], mtimes=[1, 2, 3])
     traces = []
     for n in range(ntr):
